@@ -267,7 +267,11 @@ def r6_drop(ctx, F):
     ctx.touched(b)
     musts = {
         'open=false': [i for (i, st) in field_store_blocks(b, 'open', 0)],
-        'job_batches.clear': [c.bb for c in b.calls_to('Vec::clear')],
+        # emptied in place, or moved out (`mem::take(&mut market.job_batches)`) to be freed after the lock is released
+        'job_batches.clear': [c.bb for c in b.calls_to('Vec::clear')] +
+                             [c.bb for c in b.calls_to('mem::take', 'mem::replace') if c.args and
+                              noref(b.trace(b.val(c.args[0]), ('DerefMut::deref_mut', 'Deref::deref'))).fields()[-1:] ==
+                              ('.job_batches',)],
         'notify_all': [c.bb for c in b.calls_to('Condvar::notify_all')],
     }
     for what, blocks in musts.items():
@@ -540,6 +544,22 @@ def r11_control_messages_lossless(ctx, F, rule='C05-R11'):
             r = nb.reach([e[1] for e in some], cut_blocks=[c.bb]) if some else {h.bb}
             if h.bb not in r:
                 ok = True
+    if not ok:
+        # `channels.retain(|s| s.send(msg).is_ok())`: retain calls the closure once for every element, in order;
+        # the send must be on every path of that closure
+        from common import on_all_paths
+        for b_ in bodies:
+            for c in b_.calls_to('Vec::retain', 'Vec::retain_mut', 'VecDeque::retain'):
+                if not (c.targs and 'Sender<' in c.targs[0]) or len(c.args) < 2:
+                    continue
+                cv = b_.val(c.args[1])
+                cl = F.bodies.get(cv.key[1]) if cv.kind == 'agg' and cv.key[0] == 'closure' else None
+                if cl is None:
+                    continue
+                ss = [x for x in cl.calls if re.search(r'mpsc::(Sync)?Sender(::<.*>)?::send$', x.short)]
+                # (within the closure: no return is reachable without passing the send)
+                if len(ss) == 1 and (ss[0].bb == 0 or not any(x in cl.reach([0], cut_blocks=[ss[0].bb]) for x in cl.returns)):
+                    ok = True
     ctx.check(ok, rule, 'forwarder-reaches-every-worker', sp.b,
               good='the forwarder sends each control message on every worker channel',
               bad='on-demand checker: the forwarder does not send each control message to every worker channel: a '
